@@ -5,22 +5,38 @@ from autofit.mapper.prior.arithmetic.compound import CompoundPrior, Compound
 from autofit.mapper.prior_model.abstract import AbstractPriorModel
 
 
-class ComparisonAssertion(CompoundPrior, Compound, ABC):
+class ChainedComparison:
+    """
+    Comparing an assertion with a further operand extends the chain: `<` / `<=` put the
+    operand above the greatest operand of the chain, `>` / `>=` put it below the lowest.
+
+    `_left` is the lowest and `_right` the greatest operand of the chain.
+    """
+
+    def _chain(self, assertion, lower, greater):
+        if self._left is None or self._right is None:
+            raise TypeError(
+                "This assertion does not know its operands and cannot be chained further"
+            )
+        return CompoundAssertion(self, assertion, lower=lower, greater=greater)
+
+    def __gt__(self, other):
+        return self._chain(self._left > other, other, self._right)
+
+    def __lt__(self, other):
+        return self._chain(self._right < other, self._left, other)
+
+    def __ge__(self, other):
+        return self._chain(self._left >= other, other, self._right)
+
+    def __le__(self, other):
+        return self._chain(self._right <= other, self._left, other)
+
+
+class ComparisonAssertion(ChainedComparison, CompoundPrior, Compound, ABC):
     def __init__(self, lower, greater, name=""):
         super().__init__(lower, greater)
         self._name = name
-
-    def __gt__(self, other):
-        return CompoundAssertion(self, self._left > other)
-
-    def __lt__(self, other):
-        return CompoundAssertion(self, self._right < other)
-
-    def __ge__(self, other):
-        return CompoundAssertion(self, self._left >= other)
-
-    def __le__(self, other):
-        return CompoundAssertion(self, self._right <= other)
 
 
 class GreaterThanLessThanAssertion(ComparisonAssertion):
@@ -79,12 +95,15 @@ class GreaterThanLessThanEqualAssertion(ComparisonAssertion):
         )
 
 
-class CompoundAssertion(AbstractPriorModel, Compound):
-    def __init__(self, assertion_1, assertion_2, name=""):
+class CompoundAssertion(ChainedComparison, AbstractPriorModel, Compound):
+    def __init__(self, assertion_1, assertion_2, name="", lower=None, greater=None):
         super().__init__()
         self.assertion_1 = assertion_1
         self.assertion_2 = assertion_2
         self._name = name
+        # the lowest and the greatest operand of the chain (see ChainedComparison)
+        self._left = lower
+        self._right = greater
 
     def _instance_for_arguments(
         self,
